@@ -9,11 +9,13 @@ def run(tier, seed):
     v = Verdict("C02", tier, seed, "model_checking")
     v.rule = ("MC: Metric.tla - the closed forms are mutually inverse etc. on an exact rational lattice. S->C: every lattice point through the real "
               "calcMetric on a stub region, compared with TLC's rationals. C->S: every campaign grid: inverse, Jacobian, closed forms, "
-              "g_23 = g_33 d(zShift)/dy, displacement scalar products, evaluated by Trace_Grid.tla at every index of centre/xlow/ylow.")
+              "g_23 = g_33 d(zShift)/dy, displacement scalar products, evaluated by Trace_Grid.tla at every index of centre/xlow/ylow. "
+              "MLA.tla (which locations a MultiLocationArray expression has; reads create zero-filled locations): reachable graph compared state by state with the real class.")
     v.assumptions = ["closed-form right-hand sides for the grid traces are evaluated in floating point from the file's own R, Bp, Bt, hy, beta",
                      "discretisation relations (displacements, zShift differences) are accepted within a factor 2 with exact sign"]
-    from . import c02_metric
+    from . import c02_metric, mla
     c02_metric.run(v, tier, seed)
+    mla.run(v, "C02")          # the container every metric expression is evaluated through
     traces, failed = gridprops.run(v, "C02", tier)
     clean = [t for t in traces if not any(gridprops.clause_prop(c) == "C02" for c, _ in failed.get(t["id"], ()))]
     if clean:
